@@ -900,6 +900,11 @@ func suiteOps(rn *runner, r *rng, tier string) {
 	corpusOps(rn)
 	for i := 0; i < n; i++ {
 		cr := r.fork()
+		if i%25 == 7 {
+			// edits on a deserialized document, whose equal strings share storage
+			sharedStringCase(rn, cr, "p0", "p")
+			continue
+		}
 		cfg := defaultCfg(cr)
 		cfg.maxDepth = 1 + cr.intn(4)
 		cfg.maxMembers = 2 + cr.intn(8)
